@@ -134,7 +134,7 @@ pub struct VmSchedCase {
 type VmOutcome = (Result<u64, (usize, bool)>, crate::model::vm::MState);
 
 fn run_vm(case: &ExecCase, delay: DelayTable) -> Result<VmOutcome, Violation> {
-    let Some(mut vm) = make_vm(&case.init) else {
+    let Some(mut vm) = case.make_vm() else {
         return Err(viol!("harness:unreachable-init", "init"));
     };
     let ops = to_real_ops(&case.prog);
